@@ -21,6 +21,9 @@ RULE = ("antefee: the real AdjustGasPriceDecorator.AnteHandle on transactions of
         "transaction (one of them wrapped) with the sum at the boundary; a quarter of the transactions: a fresh account creates its validator (self-delegation a) and delegates b to it in the "
         "same transaction (direct / nested), a+b at the 6.6% boundary, b alone far below; executed effects observed. antecom also: one transaction in six creates a validator (three fresh "
         "addresses, upper- or lower-case) and then delegates / redelegates to it, directly or nested, with value + amount around the boundary. "
+        "Jailed validators: antecom - a quarter of the validators are jailed, a third of the delegations are signed by the target's own operator account; antetx - a fifth of the transactions delegate to one of three validators "
+        "jailed (staking keeper Jail, as a downtime slash does) by its operator (2/3) or somebody else, 1e13 below / at / above the boundary, direct or wrapped, half of the executed self-delegations followed by MsgUnjail; "
+        "the cap predicate is judged on the target's tokens over bonded + not-bonded stake whatever its status. "
         "antegen: 22 chains started through the real InitChain from genesis files carrying gentxs (x/genutil -> DeliverTx at height 0): MsgCreateValidator at 1%, 5%-1e-18, 5%, 10% commission, "
         "direct and wrapped once / twice in MsgExec; MsgSend with fee 0 / 0.1 rowan - 1 / 0.1 rowan, direct and wrapped; 20 gentx validators of 5% each plus a gentx MsgDelegate 1e13 below / above the 6.6% "
         "boundary, direct and wrapped twice. InitChain panicking = refused; otherwise the created validator's commission, the fee, the target's tokens/total are judged by the same predicates. "
